@@ -296,6 +296,16 @@ func c15Base(r *rand.Rand, i int) (*lib.ProfileDoc, *lib.Graph) {
 	prof.Validations = append(prof.Validations, lib.Validation{Name: "builtin-vocabulary", TargetClass: "core.Thing", Message: "thing {{core.name}} needs a name",
 		Body: lib.PC1("core.name", lib.CScalar("minCount", lib.Int(1)), lib.CScalar("pattern", lib.Str("^name[02]$")))})
 	prof.Warning = append(prof.Warning, "builtin-vocabulary")
+	// names listed under a level without a definition under `validations` (they are ignored wherever they stand)
+	for k := 0; k < r.Intn(3); k++ {
+		ghost := fmt.Sprintf("not-defined-%d", k)
+		for _, lv := range []*[]string{&prof.Violation, &prof.Warning, &prof.Info} {
+			if r.Intn(2) == 0 {
+				pos := r.Intn(len(*lv) + 1)
+				*lv = append((*lv)[:pos:pos], append([]string{ghost}, (*lv)[pos:]...)...)
+			}
+		}
+	}
 	return prof, g
 }
 
